@@ -2,7 +2,7 @@ import os, shutil, time, vf
 from concurrent.futures import ThreadPoolExecutor
 PID = "C13"
 D = vf.VERIF + "/checks/C13/"
-STUB = [vf.VERIF + "/engine/sched/log_stub.cpp"]
+STUB = D + "log_fmt_stub.cpp"      # C13's own log stub: formats every record (instrumented), see the file
 REPO_SRCS = ["terminal", "event",
              "network/buffered_fd.cpp", "network/ip_address.cpp", "network/sockaddr.cpp", "network/socket_fd.cpp",
              "network/stdio_stream.cpp", "network/tcp_acceptor.cpp", "network/tcp_connection.cpp", "network/tcp_server.cpp",
@@ -13,7 +13,7 @@ REPO_SRCS = ["terminal", "event",
 def main(tier, args):
     t0 = time.time()
     srcs = vf.module_sources(*REPO_SRCS)
-    b = lambda n: vf.build("C13/" + n, [D + n + "_harness.cpp"], srcs, mode="asan", plain_srcs=STUB)
+    b = lambda n: vf.build("C13/" + n, [D + n + "_harness.cpp", STUB], srcs, mode="asan")
     editor = b("editor")                       # compiles the repo objects (cached) in parallel with the first harness
     with ThreadPoolExecutor(2) as ex:
         cmd, fe = list(ex.map(b, ["cmd", "fe"]))
@@ -33,6 +33,15 @@ def main(tier, args):
     # tokenizer lane: every line of length <= tok_len over {p a SPACE ' " ; !}
     for sh in range(tok_shards):
         jobs.append(("cmd:tok:%d" % sh, [cmd, "tok", str(tok_len), str(sh), str(tok_shards)]))
+    # the command, navigation and tokenizer lanes once more with echo and with quiet-mode sessions
+    for opts in ("echo", "quiet"):
+        jobs.append(("cmd:hist20:%s" % opts, [cmd, "20", str(cmd_depth)], {"C13_OPTS": opts}))
+        for part in range(nav_parts):
+            jobs.append(("cmd:nav:%d:%s" % (part, opts), [cmd, "nav", str(nav_depth), str(part), str(nav_parts)], {"C13_OPTS": opts}))
+        jobs.append(("cmd:tok:0:%s" % opts, [cmd, "tok", str(tok_len if quick else tok_len - 1), "0", "1"], {"C13_OPTS": opts}))
+    # lines longer than the small-string buffer: 19 stored lines of 20 characters, recalled and edited
+    jobs.append(("editor:echo:prefill19:long-lines", [editor, "echo", str(ed_depth), "19"], {"C13_LONG": "1"}))
+    jobs.append(("editor:noecho:prefill19:long-lines:glue-all", [editor, "noecho", str(ed_depth), "19"], {"C13_LONG": "1", "C13_GLUE": "all", "C13_ENTER": "lf"}))
     for mode in ("echo", "noecho", "quiet"):
         for pre in (19, 0):
             jobs.append(("editor:%s:prefill%d" % (mode, pre), [editor, mode, str(ed_depth), str(pre)]))
@@ -84,26 +93,36 @@ def main(tier, args):
                    "oracle per segment = the sequence of executed lines, one prompt per Enter in the segment, and line/cursor/history after the segment, all from the same reference editor. "
                    "(1a-two-sessions) the same histories while a second session on the same Terminal (own connection, own reference) receives one key of the cycle {b, LEFT, a, ENTER, UP, ENTER} after every segment of "
                    "the first; both sessions judged after each of their segments. "
+                   "(1a-long) prefill of 19 stored lines of 20 characters (heap strings, beyond the 15-byte small-string buffer), recalled and edited; nothing mounted, the executed line is read from the shell's "
+                   "\"Error: '<line>' not found.\" answer; one key per segment and whole history glued. The two-session key carries the phase of the second session's cycle. "
                    "(1a-alias) a second key alphabet {a, LEFT, UP, ENTER, 0x08 (the reference treats it as Backspace), TAB, Insert, PgUp, PgDn, F1, F5, F12, Alt+a, Ctrl+Alt+a (C2 81), C2 A1, the unknown CSI 'ESC [ 9', a lone ESC "
                    "(one-key-per-segment runs only)}: the reference editor ignores every key it does not know. "
                    "(1b, engine H, BFS, every history replayed in a crash-contained child) command sequences of <=%d commands from {p a, p b c, history, exit, !!, !n for n in "
                    "{0,1,19,20,21,-1,-20,-21,2147483647,-2147483648,99999999999,-99999999999,x}, the plain chain 'p a;p b c' (two calls, stored verbatim, re-run by !!/!n), three ';'-chains with a history reference "
-                   "that is not their last command (calls judged, storage adopted; later lines of the same segment then only prompt-judged)}, each either in its own segment followed by a real loop pass or glued to the previous "
+                   "that is not their last command (calls judged, storage adopted; later lines of the same segment then only prompt-judged), a 26-character probe line and a chain around it with '!!' (heap strings), "
+                   "'p %%s%%n%%s%%s' and the unknown command '%%n' (the executable's log stub really formats every record, so a client line used as a format string is a crash / ASan report)}; prefill lines are 22+ characters; each either in its own segment followed by a real loop pass or glued to the previous "
                    "command's segment, on prefilled histories of length {0,1,20,21}; oracle = one prompt per command line, probe argv of the addressed entry or an error message when it does not "
                    "exist, listing and stored history equal to the most recent 20 stored lines, exit ends the session on the next loop pass, no crash / sanitizer report / exception / hang. "
-                   "(1c, engine H, navigation lane) sequences of <=%d commands from 39 (cd / ls / tree / pwd / help with relative, absolute, '.', '..', above-root, cyclic, deleted and function paths; bare directory names; function "
-                   "paths 'd/f x', '/p a', 'e/top/p b', '../p c'; unknown names; !!, !0, history) on a node tree with nested directories, a directory mounted below itself, the root mounted below, a deleted function node and a "
+                   "(1c, engine H, navigation lane) sequences of <=%d commands from 49 (cd / ls / tree / pwd / help with relative, absolute, '.', '..', above-root, cyclic, deleted and function paths; bare directory names; function "
+                   "paths 'd/f x', '/p a', 'e/top/p b', '../p c'; unknown names; paths THROUGH a function or a deleted node ('p/x', 'd/f/q y', 'z/q', 'ls d/x/y', 'cd z/..'); command words and help paths that resolve to the root ('/', '.', '..', 'help /', 'help .'); !!, !0, history) on a node tree with nested directories, a directory mounted below itself, the root mounted below, a deleted function node and a "
                    "deleted directory node that are still mounted, and two names that were mounted and unmounted again; oracle from a reference path model: a function path runs the probe once with the line's words, a path that does not resolve or addresses a deleted node "
                    "runs nothing and reports an error, cd / bare directory move the current directory (compared after every line, and through pwd's output), built-ins run no probe, one prompt per line, every line stored; "
                    "state adds the current directory. "
-                   "(1d, engine I, tokenizer lane) every line of length <=%d over {p, a, SPACE, ', \", ;, !} + CR LF on a fresh session with a one-entry history: no crash / exception / hang, exactly one prompt; for lines "
-                   "without ';' and '!' the probe's argv equals a reference tokenizer written to the conventions of util/split_cmdline_test.cpp, an unclosed quote or an unknown command name is an error and runs nothing. "
+                   "(1d, engine I, tokenizer lane) every line of length <=%d over {p, a, SPACE, ', \", ;, !, /} + CR LF on a fresh session with a one-entry history: no crash / exception / hang, exactly one prompt; for lines "
+                   "without ';', '!' and '/' the probe's argv equals a reference tokenizer written to the conventions of util/split_cmdline_test.cpp, an unclosed quote or an unknown command name is an error and runs nothing. "
+                   "(1b/1c/1d options) cmd:hist20, both navigation partitions and the tokenizer lane are run again on echo sessions (answers cut after the echoed line) and on quiet-mode sessions (no prompt at all, "
+                   "one line per segment). The loop is pumped after every segment unconditionally. "
                    "(2, engine I) real Telnetd and TcpRpc listening on a unix stream socket with a real epoll loop, fresh client connection per case: every byte string of length<=%d (mode direct) / <=%d (mode sock) over "
                    "{IAC,SB,SE,WILL,DO,NOP,1,31,ESC,'[','A','3','~',CR,LF,NUL,'a',0xC2,0x80} in every 2-way segmentation, every prefix truncation of well-formed NAWS/TTYPE/TSPEED/negotiation "
                    "frames and NAWS-style frames with 0..5 payload bytes (every 2-way segmentation, and with the last segment filling the receive buffer exactly), exit/quit teardown inputs; "
                    "teardown-eof: 17 inputs (exit, double exit, 'p 1', 'p 1' + exit, empty, partial line, CR, ESC, IAC, IAC DO, unterminated and half-terminated NAWS) whose last segment is followed IN THE SAME STEP by close() or "
                    "shutdown(SHUT_WR) of the client socket - a line sent before the EOF must still have run exactly once; second-client: a first client has typed 'p 7' without Enter while a second client goes through every "
                    "frame (every 2-way segmentation, probe included), every teardown input and every teardown-eof input, then the first client sends CR LF and must be answered by PROBE<7> exactly once; "
+                   "every input that ends the session (all teardown, teardown-eof and node-ends-session cases) must leave the front end without a session for that client and the client reading EOF once the loop is idle; "
+                   "after the client's close no session may be left (session-left-behind is a violation); node-ends-session: a mounted command whose callback calls Session::endSession(), alone, doubled, followed by "
+                   "'p 1' in the same / the next segment, with EOF, with a second client; the probe keeps a copy of its Session the way an application does: it must be valid and sendable while the session lives and "
+                   "isValid() must be false after every kind of end; format-directives: 'p %%s%%n%%s%%s', '%%n', '%%s%%s%%s%%s%%s%%s', 'p %%999999d%%n' in every 2-way segmentation; "
+                   "session liveness is asked through the public Connection::isValid of the sessions the Spy saw opened; "
                    "delivered through the socket (mode sock) and directly into the service's onTcpReceived with an exact-capacity Buffer (mode direct); oracle = child survives, no ASan/UBSan "
                    "report, no exception, and after 'NUL NUL IAC SE CR LF' the session executes a probe command exactly once and its answer arrives on the socket"
                    % (ed_depth, cmd_depth, nav_depth, tok_len, fe_len, fe_len_sock),
@@ -122,4 +141,7 @@ def main(tier, args):
                            "an unterminated telnet sub-negotiation legitimately swallows the bytes that follow, so the probe is preceded by NUL NUL IAC SE CR LF",
                            "an idle real loop (epoll_wait would block) is the point where the harness client takes its next step (interposed epoll_wait)",
                            "mode direct bypasses BufferedFd for the received bytes only (replies still go through the real connection); mode sock uses the unmodified path",
+                           "DEFAULT-OFF (C13_NODE_END_THEN_EXIT=1): 'q' (node that calls Session::endSession) followed by 'exit' in the same segment - on the unchanged tree the deferred exit closure calls "
+                           "Connection::endSession for a session the front end already dropped and Telnetd/TcpRpc::Impl::endSession throws map::at inside the loop (reported as a defect candidate)",
+                           "a Terminal-side SessionContext that stays allocated after a node ended the session through the connection is not judged (no crash, not a client-visible effect)",
                            "sessions are de-pooled (ObjectPool keep_number_=0) so that use of a freed session is visible to ASan"])
